@@ -12,7 +12,7 @@ func init() {
 		Trusted:     trustedCommon,
 	})
 	reg("C13", &PropSpec{
-		Rules:       []Rule{r("H1", RuleH1), r("PS1", RulePS1), r("N2", RuleN2), r("D1", RuleD1), r("CK1", RuleCK1), r("LC1", RuleLC1("core/collect_core_path.go", "core/path_parameter.go", "core/path_variables.go", "core/compile_catalog.go", "core/raw_path_variables.go", "directive/path.go"))},
+		Rules:       []Rule{r("H1", RuleH1), r("PS1", RulePS1), r("N2", RuleN2), r("D1", RuleD1), r("CK1", RuleCK1), r("TW1", RuleTW1), r("FC1", RuleFC1), r("LC1", RuleLC1("core/collect_core_path.go", "core/path_parameter.go", "core/path_variables.go", "core/compile_catalog.go", "core/raw_path_variables.go", "directive/path.go"))},
 		Explanation: "Decided: a parameter declared twice for one prefix is refused before the insert into the project-wide prefix map (H1); Path schemas are read only after all of them passed the flat-object check, and leftover properties are an error for every Path directive (PS1); a Path body that resolves to a non-JSight type is a diagnostic (N2); the unused-names message is deterministic (D1); every path-registering handler runs the similar-paths check (CK1). Not decided: the splitting of a path into (prefix, name) pairs and the binding itself (string logic).",
 		Trusted:     trustedCommon,
 	})
